@@ -200,6 +200,40 @@ func (c *Config) CanSign(signers party.IDSlice) bool {
 	return true
 }
 
+// Validate checks that the config holds everything that is needed to take part in a protocol:
+// group, secret shares and keys, a threshold that fits the number of parties, and complete public
+// data for every party including this one. It does not re-check the cryptographic validity of the
+// values (UnmarshalBinary does that when a stored config is restored).
+func (c *Config) Validate() error {
+	if c == nil {
+		return errors.New("config: config is nil")
+	}
+	if c.Group == nil {
+		return errors.New("config: group is nil")
+	}
+	if c.ID == "" {
+		return errors.New("config: ID is empty")
+	}
+	if c.ECDSA == nil || c.ECDSA.IsZero() || c.ElGamal == nil || c.ElGamal.IsZero() {
+		return errors.New("config: ECDSA or ElGamal secret key is missing")
+	}
+	if c.Paillier == nil {
+		return errors.New("config: Paillier secret key is missing")
+	}
+	if !ValidThreshold(c.Threshold, len(c.Public)) {
+		return fmt.Errorf("config: threshold %d is invalid for %d parties", c.Threshold, len(c.Public))
+	}
+	if _, ok := c.Public[c.ID]; !ok {
+		return errors.New("config: no public data for this party")
+	}
+	for id, public := range c.Public {
+		if public == nil || public.ECDSA == nil || public.ElGamal == nil || public.Paillier == nil || public.Pedersen == nil {
+			return fmt.Errorf("config: party %s: incomplete public data", id)
+		}
+	}
+	return nil
+}
+
 func ValidThreshold(t, n int) bool {
 	if t < 0 || t > math.MaxUint32 {
 		return false
